@@ -243,6 +243,33 @@ pub enum Ent {
     XsdtEntry(u64),
     QosCtrl(rqsc::QoSController),
     Gas(GAS),
+    /// a crate type that is not a MADT structure handed to the generic `MADT::add_structure<T>`
+    MadtGas(GAS),
+    /// a caller-defined type handed to `MADT::add_structure<T>`: serialises field by field through the
+    /// typed sink entry points (not one `vec(as_bytes())`)
+    MadtUser(UserEntry),
+    /// the same for `HEST::add_structure<T>`
+    HestUser(UserEntry),
+}
+
+/// a user-written table entry: `#[repr(C, packed)]`, `IntoBytes`, and a hand-written `Aml` impl that
+/// emits its fields through byte / byte / word / qword (a *lawful* foreign type: raw form = serialised form)
+#[repr(C, packed)]
+#[derive(Clone, Copy, Debug, zerocopy::IntoBytes, zerocopy::Immutable)]
+pub struct UserEntry {
+    pub ty: u8,
+    pub len: u8,
+    pub flags: [u8; 2],
+    pub addr: [u8; 8],
+}
+
+impl Aml for UserEntry {
+    fn to_aml_bytes(&self, sink: &mut dyn acpi_tables::AmlSink) {
+        sink.byte(self.ty);
+        sink.byte(self.len);
+        sink.word(u16::from_le_bytes(self.flags));
+        sink.qword(u64::from_le_bytes(self.addr));
+    }
 }
 
 fn en3<T: Copy>(v: u64, xs: &[T]) -> T {
@@ -570,7 +597,14 @@ pub fn build(op: &Op, hs: &mut Handles) -> Ent {
             let mut q = rqsc::QoSController::new(if n(0) == 0 { rqsc::ControllerType::Capacity } else { rqsc::ControllerType::Bandwidth },
                 gas_of(&op.n[1..6]), n(6) as u32, n(7) as u32, n(8) as u16);
             for (i, t) in op.s.iter().enumerate() {
+                // an all-zero typed resource is built through its `Default` impl (the documented way to say
+                // "no SRAT / proximity domain 0"): same value as `new(0, ..)`, a different construction path
+                let zero = t[3] == 0 && t.get(4).copied().unwrap_or(0) == 0;
                 let id = match t[2] {
+                    0 if zero => rqsc::ResourceID::Cache(Default::default()),
+                    1 if zero => rqsc::ResourceID::MemoryAffinityStructure(Default::default()),
+                    2 if zero => rqsc::ResourceID::ACPIDevice(Default::default()),
+                    3 if zero => rqsc::ResourceID::PCIDevice(Default::default()),
                     0 => rqsc::ResourceID::Cache(rqsc::CacheResource::new(t[3] as u32)),
                     1 => rqsc::ResourceID::MemoryAffinityStructure(rqsc::MemoryAffinityStructureResource::new(t[3] as u32, t[4])),
                     2 => rqsc::ResourceID::ACPIDevice(rqsc::ACPIDeviceResource::new(t[3], t[4] as u32)),
@@ -582,6 +616,44 @@ pub fn build(op: &Op, hs: &mut Handles) -> Ent {
             Ent::QosCtrl(q)
         }
         "gas" => Ent::Gas(gas_of(&op.n)),
+        // entries outside the modelled builder programs, decided in opaque mode only (C01, C02, C05, C14):
+        // `derive(Default)` values of the public entry structs (optionally followed by their setters),
+        // crate types and caller-defined types handed to the generic `add_structure<T>`
+        "dflt" => match n(0) {
+            0 => Ent::Lapic(Default::default()),
+            1 => Ent::IoApic(Default::default()),
+            2 => Ent::Gicc(Default::default()),
+            3 => Ent::Gicd(Default::default()),
+            4 => Ent::GicMsi(Default::default()),
+            5 => Ent::Gicr(Default::default()),
+            6 => Ent::Its(Default::default()),
+            7 => Ent::Rintc(Default::default()),
+            8 => Ent::Imsic(Default::default()),
+            10 => {
+                let mut r = srat::RintcAffinity::default();
+                for (nm, v) in &op.o {
+                    r = match nm.as_str() { "en" => r.enabled(), "pd" => r.proximity_domain(v[0] as u32), _ => panic!("dflt opt") };
+                }
+                Ent::RintcAff(r)
+            }
+            11 => Ent::Mpd(Default::default()),
+            12 => Ent::Cache(Default::default()),
+            20 => Ent::AerRp(Default::default()),
+            21 => Ent::AerDev(Default::default()),
+            22 => Ent::AerBr(Default::default()),
+            23 => Ent::Ghes(Default::default()),
+            24 => Ent::GhesV2(Default::default()),
+            // a source built by its constructor whose notification structure is a `Default` value + setters
+            25 => Ent::Ghes(hest::GenericHardwareSource::new(n(1) as u16, if n(2) != 0 { hest::EnabledStatus::Enabled } else { hest::EnabledStatus::Disabled })
+                .notification(hest::NotificationStructure::default().poll_interval_ms(n(3) as u32).vector(n(4) as u32))),
+            26 => Ent::GhesV2(hest::GenericHardwareSourceV2::new(n(1) as u16, if n(2) != 0 { hest::EnabledStatus::Enabled } else { hest::EnabledStatus::Disabled })
+                .notification(hest::NotificationStructure::default().poll_interval_ms(n(3) as u32).vector(n(4) as u32))),
+            30 => Ent::QosCtrl(Default::default()),
+            40 => Ent::MadtGas(gas_of(&op.n[1..6])),
+            41 => Ent::MadtUser(UserEntry { ty: n(1) as u8, len: 12, flags: (n(2) as u16).to_le_bytes(), addr: n(3).to_le_bytes() }),
+            42 => Ent::HestUser(UserEntry { ty: n(1) as u8, len: 12, flags: (n(2) as u16).to_le_bytes(), addr: n(3).to_le_bytes() }),
+            v => panic!("unknown dflt variant {}", v),
+        },
         k => panic!("unknown kind {}", k),
     }
 }
@@ -617,7 +689,7 @@ impl Ent {
             Ent::Ecam(b, s, sb, eb) => ecam_bytes(*b, *s, *sb, *eb),
             Ent::XsdtEntry(v) => v.to_le_bytes().to_vec(),
             Ent::QosCtrl(x) => ser(x),
-            Ent::Gas(x) => ser(x),
+            Ent::Gas(x) => ser(x), Ent::MadtGas(x) => ser(x), Ent::MadtUser(x) => ser(x), Ent::HestUser(x) => ser(x),
         }
     }
     /// raw in-memory form (`as_bytes`) for the `IntoBytes` structures (C14)
@@ -630,7 +702,8 @@ impl Ent {
             Ent::RintcAff(x) => x.as_bytes().to_vec(), Ent::Mpd(x) => x.as_bytes().to_vec(), Ent::Cache(x) => x.as_bytes().to_vec(),
             Ent::AerRp(x) => x.as_bytes().to_vec(), Ent::AerDev(x) => x.as_bytes().to_vec(), Ent::AerBr(x) => x.as_bytes().to_vec(),
             Ent::Ghes(x) => x.as_bytes().to_vec(), Ent::GhesV2(x) => x.as_bytes().to_vec(), Ent::Notif(x) => x.as_bytes().to_vec(),
-            Ent::Gas(x) => x.as_bytes().to_vec(),
+            Ent::Gas(x) => x.as_bytes().to_vec(), Ent::MadtGas(x) => x.as_bytes().to_vec(),
+            Ent::MadtUser(x) => x.as_bytes().to_vec(), Ent::HestUser(x) => x.as_bytes().to_vec(),
             _ => return None,
         })
     }
@@ -652,7 +725,7 @@ impl Ent {
             Ent::Chbs(x) => f(x), Ent::Cfmws(x) => f(x), Ent::Cxims(x) => f(x), Ent::Rdpas(x) => f(x),
             Ent::AerRp(x) => f(x), Ent::AerDev(x) => f(x), Ent::AerBr(x) => f(x), Ent::Ghes(x) => f(x), Ent::GhesV2(x) => f(x),
             Ent::Notif(x) => f(x), Ent::Ges(x) => f(x), Ent::Ged(x) => f(x),
-            Ent::QosCtrl(x) => f(x), Ent::Gas(x) => f(x),
+            Ent::QosCtrl(x) => f(x), Ent::Gas(x) => f(x), Ent::MadtGas(x) => f(x), Ent::MadtUser(x) => f(x), Ent::HestUser(x) => f(x),
             Ent::Ecam(..) | Ent::XsdtEntry(..) => return None,
         })
     }
@@ -664,6 +737,7 @@ impl Ent {
             Ent::Cmo(x) => s!(x), Ent::Hart(x) => s!(x), Ent::Iommu(x) => s!(x), Ent::PcieRc(x) => s!(x), Ent::Platform(x) => s!(x),
             Ent::PciRange(x) => s!(x), Ent::MmioEp(x) => s!(x), Ent::Chbs(x) => s!(x), Ent::Cfmws(x) => s!(x), Ent::Cxims(x) => s!(x),
             Ent::Rdpas(x) => s!(x), Ent::Ghes(x) => s!(x), Ent::QosCtrl(x) => s!(x), Ent::Gas(x) => s!(x),
+            Ent::MadtGas(x) => s!(x), Ent::MadtUser(x) => s!(x), Ent::HestUser(x) => s!(x),
             _ => None,
         }
     }
@@ -751,6 +825,9 @@ impl Tab {
             (Tab::Hest(t), Ent::Ghes(x)) => { t.add_structure(x); None }
             (Tab::Hest(t), Ent::GhesV2(x)) => { t.add_structure(x); None }
             (Tab::Rqsc(t), Ent::QosCtrl(x)) => { t.add_controller(x); None }
+            (Tab::Madt(t), Ent::MadtGas(x)) => { t.add_structure(x); None }
+            (Tab::Madt(t), Ent::MadtUser(x)) => { t.add_structure(x); None }
+            (Tab::Hest(t), Ent::HestUser(x)) => { t.add_structure(x); None }
             _ => panic!("entry kind does not belong to this table"),
         }
     }
@@ -795,13 +872,22 @@ pub fn run_tbl(toks: &[&str]) -> String {
     out.push(format!("-,-,{},-", observe(&tab, first)));
     let mut dead = false;
     for op in &ops {
+        // built twice: once to serialise alone, once to add.  The standalone serialisation is observed
+        // on its own: an entry that serialises alone although the add call refuses it is reported as
+        // `serok:<hex>` (C18: a refusal that lives only in the table's add method leaves the public
+        // `Aml` impl of the entry returning bytes with a wrapped length or count)
+        let alone = std::panic::catch_unwind(std::panic::AssertUnwindSafe(|| {
+            let e = build(op, &mut hs);
+            hs.resolved.clear();
+            e.ser()
+        }));
+        hs.resolved.clear();
+        let raw = match alone {
+            Ok(v) => v,
+            Err(_) => { out.push("panic".to_string()); dead = true; break; }
+        };
+        let raw_alone = raw.clone();
         let r = std::panic::catch_unwind(std::panic::AssertUnwindSafe(|| {
-            // built twice: once to serialise alone, once to add
-            let raw = {
-                let e = build(op, &mut hs);
-                hs.resolved.clear();
-                e.ser()
-            };
             let e = build(op, &mut hs);
             let refs = refs_str(&mut hs);
             // MCFG / XSDT entries have no public type of their own: the entry "as the implementation
@@ -822,7 +908,7 @@ pub fn run_tbl(toks: &[&str]) -> String {
                 }
             }
             Err(_) => {
-                out.push("panic".to_string());
+                out.push(format!("serok:{}", hex(&raw_alone)));
                 dead = true;
                 break;
             }
